@@ -245,6 +245,13 @@ func (x *Exec) applyContract(st *State, site ast.Node, key string, clauses []*Cl
 			binds[names[i]] = a
 		}
 	}
+	// a parameter that was renamed since the contract was written: the contract still uses the
+	// old name, recorded with its position (receiver first) when the baseline was taken
+	for old, ord := range localHints[strings.TrimPrefix(key, modRoot+"/")] {
+		if _, bound := binds[old]; !bound && ord < len(args) && ord < len(names) {
+			binds[old] = args[ord]
+		}
+	}
 	pkg := keyPkg(key)
 	if strings.HasPrefix(key, "functype ") {
 		pkg = x.fn.pkgPath()
@@ -818,6 +825,15 @@ func (x *Exec) recvEvent(st *State, ch ast.Expr, site ast.Node) (Val, Val) {
 		v = Val{T: "0", S: "Int"}
 	}
 	ok := Val{T: x.freshConst("opened", "Bool"), S: "Bool", G: types.Typ[types.Bool]}
+	// a receive that completes was not on a nil channel (a nil channel blocks for ever: in a
+	// select its case is never taken)
+	if id, isID := ast.Unparen(ch).(*ast.Ident); isID {
+		if o, isVar := x.info().Uses[id].(*types.Var); isVar {
+			if cv, has := st.vars[o]; has && cv.S == "Int" {
+				st.assume(not(app("=", cv.T, "0")))
+			}
+		}
+	}
 	ev, wild := x.findEvent("recv", ch)
 	var ost *State
 	if ev == nil {
